@@ -12,9 +12,10 @@ from vfy import lang
 LEVEL = "exploration"
 DECIDING = ["line_events"]
 MIN_DECIDED_RATIO = 0.9
-FEATURES = ("assign", "agg", "onmatch", "control", "fail", "print", "wide")
+FEATURES = ("assign", "agg", "onmatch", "control", "fail", "print", "wide", "rewrite")
 RULE = (
-    "random programs (assignments, aggregates, onmatch, stop/skip/advance/last, fail forms, print) x random files, policy {collect, print}; "
+    "random programs (assignments, aggregates, onmatch, stop/skip/advance/last, fail forms, print, the line-rewriting collect()/replace()/append() "
+    "functions) x mode comments (return/unmatched/print/validation/run-mode) x random files (ragged, blank records), 10% with skip_blank_lines=False, policy {collect, print}; "
     "per case: collect vs next vs fast_forward (trace, final variables/counters/validity/stopped/errors/printouts, returned lines) and "
     "collect(nexts=n) for all n in 1..matches+1 (prefix of collect(); LineEvents are a prefix of the full trace; no set_variable/print "
     "tagged with a line beyond the n-th returned line). Non-trivial: at least one line matches; distinct = distinct (program skeleton, file kind vector)."
@@ -31,8 +32,11 @@ def plan(tier, seed):
 def make_case(seed, shard, i):
     r = random.Random(f"{seed}:C07:{shard}:{i}")
     prog, rows = lang.gen_case(r, FEATURES)
-    prog["comment"] = lang.random_mode_comment(r, 0.45)
-    return lang.tolist(prog), rows
+    prog["comment"] = lang.random_mode_comment(r, 0.45, allow=("return-mode", "unmatched-mode", "print-mode", "validation-mode", "run-mode"))
+    prog = lang.tolist(prog)
+    if r.random() < 0.1:
+        prog["csvpath_kw"] = {"skip_blank_lines": False}
+    return prog, rows
 
 
 def final_state(real):
@@ -63,17 +67,26 @@ def run_case(prog, rows, agg):
     from vfy import diffrun, env, hooks
 
     pol = ("collect", "print")
-    a = diffrun.real_run(prog, rows, agg, policy=pol, method="collect")
-    b = diffrun.real_run(prog, rows, agg, policy=pol, method="next")
-    c = diffrun.real_run(prog, rows, agg, policy=pol, method="fast_forward")
-    w = {"program": a["text"], "rows": rows}
+    kw = prog.get("csvpath_kw") or {}
+    a = diffrun.real_run(prog, rows, agg, policy=pol, method="collect", **kw)
+    b = diffrun.real_run(prog, rows, agg, policy=pol, method="next", **kw)
+    c = diffrun.real_run(prog, rows, agg, policy=pol, method="fast_forward", **kw)
+    w = {"program": a["text"], "rows": rows, "csvpath_kw": kw}
     if a["exc"] or b["exc"] or c["exc"]:
         if not (a["exc"] == b["exc"] == c["exc"]):
-            w["exceptions"] = [a["exc"], b["exc"], c["exc"]]
+            w["exceptions"] = {"collect": a["exc"], "next": b["exc"], "fast_forward": c["exc"]}
             return "exception-differs", w, 0
         agg.count("same_exception_on_all_entry_points")
         agg.note(f"{a['exc'][:120]} :: {a['text'][:200]}")
-        return None, None, 0  # the same failure on all three entry points
+        # the same failure on all three entry points: they must also have got equally far
+        fa = final_state(a)
+        for name, other in (("next", b), ("fast_forward", c)):
+            fo = final_state(other)
+            for k in fa:
+                if fa[k] != fo[k]:
+                    w.update({"field": k, "collect": fa[k], name: fo[k], "exception": a["exc"]})
+                    return f"final-{k}-collect-vs-{name}-after-exception", w, 0
+        return None, None, 0
     if a["lines"] != b["lines"]:
         w["collect"] = a["lines"][:5]
         w["next"] = b["lines"][:5]
@@ -102,7 +115,7 @@ def run_case(prog, rows, agg):
     with open("p.csv", "w", newline="") as f:
         f.write(lang.rows_to_text(rows))
     for n in range(1, len(full) + 2):
-        cp, cap = env.new_csvpath(list(pol))
+        cp, cap = env.new_csvpath(list(pol), **kw)
         with hooks.recording(agg) as rec:
             try:
                 got = cp.collect(a["text"], nexts=n)
@@ -132,8 +145,37 @@ def run_case(prog, rows, agg):
     return None, None, len(full)
 
 
+def has_fn(n, name):
+    if isinstance(n, (list, tuple)):
+        if len(n) > 1 and n[0] == "fn" and n[1] == name:
+            return True
+        return any(has_fn(x, name) for x in n)
+    return False
+
+
+def f24_applies(prog, rows, w, agg):
+    """F24: only collect() keeps unmatched lines, so only collect() projects them through the csvpath's collect(...)
+    function and raises 'unknown header name' on an unmatched line that is too short. Attributed only when (a) collect()
+    raised that exception while next() and fast_forward() agree with each other (nothing, or the same later failure), (b) the csvpath keeps unmatched lines and uses collect(...), and (c) the same csvpath
+    without 'unmatched-mode: keep' passes every obligation of this check."""
+    exc = w.get("exceptions") or {}
+    if not (exc.get("collect") or "").startswith("InputException") or "unknown header name" not in exc["collect"]:
+        return False
+    if exc.get("next") != exc.get("fast_forward"):
+        return False  # next() and fast_forward() must still agree with each other (they may fail later, on a matched line)
+    comment = prog.get("comment", "")
+    if "unmatched-mode: keep" not in comment or not any(has_fn(c, "collect") for c in prog["comps"]):
+        return False
+    twin = dict(prog, comment=comment.replace("unmatched-mode: keep", "unmatched-mode: no-keep"))
+    res, _, _ = run_case(twin, rows, agg)
+    return res is None
+
+
 def run_one(prog, rows, agg):
     res, w, nmatch = run_case(prog, rows, agg)
+    if res == "exception-differs" and f24_applies(prog, rows, w, agg):
+        agg.known_finding("F24", {"prog": prog, "rows": rows}, w, lang.prog_shape(prog))
+        return
     shape = lang.prog_shape(prog) + "|" + "/".join("B" if not r else str(len(r)) for r in rows)
     if res is None:
         agg.held(shape, nmatch > 0, sample={"program": lang.program_text(prog, "p.csv"), "rows": rows[:4], "matches": nmatch})
